@@ -202,6 +202,9 @@ def get_exp(name):
         elif typ == "qpt":
             qt = StandardQpt(states, povms, on_para_eq_constraint=para, schedules="all")
             obj = Gate(c_sys, np.diag([1.0, 0, 0, 0]), on_para_eq_constraint=para)
+        elif typ == "qmpt3":      # the estimated instrument has THREE outcomes (with para=True the equality constraint removes variables of the last one)
+            qt = StandardQmpt(states, povms, num_outcomes=3, on_para_eq_constraint=para, schedules="all")
+            obj = MProcess(c_sys, [np.diag([1.0 / 3, 0, 0, 0])] * 3, on_para_eq_constraint=para)
         elif typ == "qmpt":       # k = outcomes of the tester POVMs, the instrument has 2 outcomes
             qt = StandardQmpt(states, povms, num_outcomes=2, on_para_eq_constraint=para, schedules="all")
             obj = MProcess(c_sys, [np.diag([0.5, 0, 0, 0])] * 2, on_para_eq_constraint=para)
@@ -343,7 +346,7 @@ def chk_se_callables(ctx, case):
     site = "WeightedProbabilityBasedSquaredError"
     ns, mm, nv = case["ns"], case["m"], case["nv"]
     key = ("sec", ns, mm, nv, tuple(case["v"]), tuple(case["q"]), case.get("kind"))
-    if case.get("kind") in ("asym", "int"):
+    if case.get("kind") in ("asym", "int", "f32"):
         try:
             se_loss_from_case(case); raised = None
         except ValueError:
@@ -398,12 +401,14 @@ def gen_se_callables(ctx, n):
         elif r < 0.4:
             c["HP"] = [dy(rng, -1, 1, 4) for _ in range(nv * nv * N)]
         cases.append(c)
-    for kind in ("asym", "int"):
+    for kind in ("asym", "int", "f32"):
         c = dict(cases[0]); c = {k: (list(v) if isinstance(v, list) else v) for k, v in c.items()}
         ns, mm = c["ns"], c["m"]
         W = [x for j in range(ns) for row in rand_sym(rng, mm) for x in row]
         if kind == "asym":
             W[1] = W[mm] + 1.0
+        elif kind == "f32":
+            c["wdtype"] = "float32"
         else:
             W = [float(int(x)) for x in W]; c["wdtype"] = "int64"
         c["W"] = W; c["kind"] = kind; c["G"] = None; c["HP"] = None
@@ -443,8 +448,8 @@ def se_option(step, mm, ns, fast):
     ws = None
     if step["mode"] == 1 and step.get("custom") is not None:
         ws = [np.array(step["custom"][j * mm * mm:(j + 1) * mm * mm], dtype=np.float64).reshape(mm, mm) for j in range(ns)]
-        if step.get("wview"):                      # weight matrices handed over as non-contiguous views
-            ws = [strided(w_) for w_ in ws]
+        if step.get("wview"):                      # weight matrices as non-contiguous / Fortran-ordered / transposed / read-only arrays
+            ws = [relayout(w_, step["wview"] if isinstance(step["wview"], str) else "view") for w_ in ws]
     return cls(mode_weight=MODES[step["mode"]], weights=ws)
 
 
@@ -492,17 +497,50 @@ def strided(a):
     return buf[:, ::2]
 
 
+def relayout(a, kind):
+    """the same numbers in another memory layout / with other flags"""
+    a = np.array(a, dtype=np.float64)
+    if kind == "view":
+        return strided(a)
+    if kind == "fortran":
+        return np.asfortranarray(a)
+    if kind == "transposed":                     # a transposed view of the transposed copy: same numbers, F-ordered view
+        return np.ascontiguousarray(a.T).T
+    if kind == "readonly":
+        a.setflags(write=False)
+        return a
+    return a
+
+
 def variants_check(viol, case, k, objs, v, ref):
-    """the same point handed over as a non-contiguous view, and validate=True: results must not change
+    """the same point handed over as a non-contiguous view / read-only array, validate=True, and the arrays RETURNED by
+    gradient / hessian overwritten by the caller before the API is called again: results must not change
     objs: [(name, object, has_hessian)], ref: {name: (value, gradient)}"""
-    vv = strided(v)
-    for name, obj, _ in objs:
+    vv = strided(v); vr = relayout(v, "readonly")
+    for name, obj, has_h in objs:
         val0, grad0 = ref[name]
         sc = 1.0 + abs(val0)
+        g_ret = obj.gradient(v)
+        try:
+            g_ret[...] = 123.0                   # the caller reuses the returned buffer
+        except (ValueError, TypeError):
+            pass
+        h0 = None
+        has_h = has_h and len(v) <= 8
+        if has_h:
+            h_ret = obj.hessian(v); h0 = fl(h_ret).copy() if hasattr(fl(h_ret), "copy") else list(fl(h_ret))
+            try:
+                h_ret[...] = 321.0
+            except (ValueError, TypeError):
+                pass
         for what, val, grad in (("array-layout-changes-result", float(obj.value(vv)), fl(obj.gradient(vv))),
-                                ("validate-changes-result", float(obj.value(v, validate=True)), fl(obj.gradient(v, validate=True)))):
+                                ("read-only-point-changes-result", float(obj.value(vr)), fl(obj.gradient(vr))),
+                                ("validate-changes-result", float(obj.value(v, validate=True)), fl(obj.gradient(v, validate=True))),
+                                ("returned-array-aliases-internal-state", float(obj.value(v)), fl(obj.gradient(v)))):
             if abs(val - val0) > 1e-12 * sc or not vec_close(grad, grad0, 1e-12):
-                viol(name, what, "step %d: value %r / gradient differ from the plain call (value %r)" % (k, val, val0), case)
+                viol(name, what, "step %d: value %r / gradient differ from the first plain call (value %r)" % (k, val, val0), case)
+        if has_h and not vec_close(fl(obj.hessian(v)), h0, 1e-12):
+            viol(name, "returned-array-aliases-internal-state", "step %d: Hessian changed after the caller overwrote the returned array" % k, case)
 
 
 class Fired:
@@ -540,8 +578,8 @@ def chk_se_qt(ctx, case):
             label = "%s-%s-%s%s" % (case["exp"].split("-")[0], MODES.get(mode, "setter"), "fresh" if k == 0 else "reused",
                                     "" if step.get("opt", "new") == "new" else "-%s-option-%s-data" % (step["opt"], step.get("dat", "new")))
             data = [(int(step["nd"][j]), np.array(step["q"][j * mm:(j + 1) * mm], dtype=np.float64)) for j in range(ns)]
-            if case.get("layout") == "view":         # empirical distributions handed over as non-contiguous views
-                data = [(n_, strided(q_)) for n_, q_ in data]
+            if case.get("layout", "plain") != "plain":   # empirical distributions as non-contiguous views / read-only arrays
+                data = [(n_, relayout(q_, case["layout"])) for n_, q_ in data]
             data_changed = last_data is not None and last_data != (list(step["nd"]), list(step["q"]))
             if mode != 5:
                 last_data = (list(step["nd"]), list(step["q"]))
@@ -613,8 +651,9 @@ def chk_se_qt(ctx, case):
                 hess_raises = True
             if not hess_raises:
                 viol(SITE_SE_FAST, "model-mismatch:hessian-implemented", "fast hessian no longer raises NotImplementedError", case)
-            variants_check(viol, case, k, [("WeightedProbabilityBasedSquaredError", G, True), ("StandardQTomographyBasedWeightedProbabilityBasedSquaredError", Fs, False)],
-                           v, {"WeightedProbabilityBasedSquaredError": (g_val, g_grad), "StandardQTomographyBasedWeightedProbabilityBasedSquaredError": (f_val, f_grad)})
+            if k == 0:
+              variants_check(viol, case, k, [("WeightedProbabilityBasedSquaredError", G, True), ("StandardQTomographyBasedWeightedProbabilityBasedSquaredError", Fs, False)],
+                             v, {"WeightedProbabilityBasedSquaredError": (g_val, g_grad), "StandardQTomographyBasedWeightedProbabilityBasedSquaredError": (f_val, f_grad)})
             # ---- (a) formulas with the implementation's own current weights / cache (exact dyadic inputs)
             mv_, mg, mh = m_se(m, ns, mm, nv, A, b, q, case["v"], gw)
             if not (rel_close(g_val, mv_, TOL) and vec_close(g_grad, mg, TOL) and vec_close(fl(g_hess), mh, TOL)):
@@ -671,7 +710,7 @@ def gen_step(rng, e, mode):
     st = {"mode": mode, "nd": nd, "q": q, "custom": None}
     if mode in (1, 5):
         st["custom"] = rand_wmats(rng, ns, mm)
-        st["wview"] = rng.random() < 0.3
+        st["wview"] = rng.choice(["view", "fortran", "transposed", "readonly"]) if rng.random() < 0.4 else False
     return st
 
 
@@ -698,6 +737,7 @@ WITNESS_SE = [
     {"exp": "qst-2-F", "plan": [1, 5, (1, "same", "new")]},        # custom, setter, the same custom option object again
     {"exp": "qmpt-2-T", "plan": [3, (3, "equal", "new")]},
     # boundary values of the weight matrices: the zero matrix for one schedule / for all schedules
+    {"exp": "qmpt3-2-T", "plan": [3]},          # 3-outcome instrument with the equality constraint parametrised away (one quick-tier case)
     {"exp": "qst-2-T", "plan": [1], "zero": "one"},
     {"exp": "povmt-3-T", "plan": [1, 5], "zero": "all"},
 ]
@@ -736,6 +776,8 @@ def gen_se_qt(ctx, n):
     exps = EXP_QUICK if ctx.quick else EXP_QUICK + EXP_MORE
     cases = []
     plans = [dict(w) for w in WITNESS_SE]
+    if not ctx.quick:     # (44 variables: expensive, a handful of cases only)
+        plans += [{"exp": "qmpt3-2-F", "plan": [2, (2, "same", "new")]}, {"exp": "qmpt3-2-T", "plan": [1, 0]}, {"exp": "qmpt3-3-T", "plan": [4]}]
     for i in range(n):
         name = exps[i % len(exps)]
         L = rng.choice([1, 2, 2, 3])
@@ -756,14 +798,14 @@ def gen_se_qt(ctx, n):
             for st in steps_:
                 if st.get("custom") is not None:
                     st["custom"] = [0.0] * len(st["custom"]) if pl["zero"] == "all" else [0.0] * mm2 + list(rand_wmats(rng, e["ns"], e["m"]))[mm2:]
-        c = {"exp": pl["exp"], "steps": steps_, "layout": "view" if rng.random() < 0.3 else "plain",
+        c = {"exp": pl["exp"], "steps": steps_, "layout": rng.choice(["view", "readonly"]) if rng.random() < 0.4 else "plain",
              "v": rand_point(rng, e, rng.random() < 0.5), "h": [dy(rng, -1, 1, 16) for _ in range(e["nv"])]}
         cases.append(c)
     return cases
 
 
 def sub_se_qt(ctx):
-    cases = gen_se_qt(ctx, ctx.n(48, 600))
+    cases = gen_se_qt(ctx, ctx.n(40, 600))
     ctx.sample("se_qt", {k: (v if k != "steps" else [dict(s, q=s["q"][:4], custom=None) for s in v]) for k, v in cases[1].items()})
     ctx.run_cases("se_qt", chk_se_qt, cases)
 
@@ -955,8 +997,8 @@ def chk_re_qt(ctx, case):
             q = list(step["q"])
             oid = step.get("oid", k)
             data = [(int(step["nd"][j]), np.array(q[j * mm:(j + 1) * mm], dtype=np.float64)) for j in range(ns)]
-            if case.get("layout") == "view":
-                data = [(n_, strided(q_)) for n_, q_ in data]
+            if case.get("layout", "plain") != "plain":
+                data = [(n_, relayout(q_, case["layout"])) for n_, q_ in data]
             ws = step.get("w")
             kind = step["kind"]          # "option" | "setter"
             w0f, ew0f = re_state(Fs)
@@ -1024,7 +1066,7 @@ def chk_re_qt(ctx, case):
                     viol("StandardQTomographyBasedWeightedRelativeEntropy", "model-mismatch:hessian-implemented", "fast hessian no longer raises", case)
                 except NotImplementedError:
                     pass
-            if f_err is None:
+            if f_err is None and k == 0:
                 variants_check(viol, case, k, [("WeightedRelativeEntropy", G, True), ("StandardQTomographyBasedWeightedRelativeEntropy", Fs, False)],
                                v, {"WeightedRelativeEntropy": (g_val, g_grad), "StandardQTomographyBasedWeightedRelativeEntropy": (f_val, f_grad)})
             # ---- the property: the configured weights take effect; fast = generic
@@ -1077,6 +1119,7 @@ WITNESS_RE = [
     {"exp": "povmt-3-F", "ctor": False, "steps": [("option", False), ("setter", True), ("option", None, "same")]},
     {"exp": "qst-2-F", "ctor": True, "steps": [("option", True), ("option", None, "same"), ("option", None, "equal")]},
     # boundary values of the weights: an exact 0.0 (a schedule excluded from the fit), via option / setter / constructor
+    {"exp": "qmpt3-2-T", "ctor": False, "steps": [("option", True)]},
     {"exp": "qst-2-T", "ctor": False, "zero": True, "steps": [("option", True)]},
     {"exp": "povmt-3-F", "ctor": False, "zero": True, "steps": [("option", False), ("setter", True)]},
     {"exp": "qpt-2-F", "ctor": True, "zero": True, "steps": [("option", True), ("setter", True)]},
@@ -1122,13 +1165,13 @@ def gen_re_qt(ctx, n):
             if kind == "option":
                 last = d
             steps.append(d)
-        cases.append({"exp": pl["exp"], "ctor_w": rand_wvec(rng, ns) if pl["ctor"] else None, "steps": steps, "layout": "view" if rng.random() < 0.3 else "plain",
+        cases.append({"exp": pl["exp"], "ctor_w": rand_wvec(rng, ns) if pl["ctor"] else None, "steps": steps, "layout": rng.choice(["view", "readonly"]) if rng.random() < 0.4 else "plain",
                       "v": rand_point(rng, e, rng.random() < 0.35), "h": [dy(rng, -1, 1, 16) for _ in range(e["nv"])]})
     return cases
 
 
 def sub_re_qt(ctx):
-    cases = gen_re_qt(ctx, ctx.n(42, 500))
+    cases = gen_re_qt(ctx, ctx.n(34, 500))
     ctx.sample("re_qt", {k: (v if k != "steps" else [dict(s, q=s["q"][:4]) for s in v]) for k, v in cases[0].items()})
     ctx.run_cases("re_qt", chk_re_qt, cases)
 
@@ -1139,6 +1182,8 @@ SITE_MIX_FAST = "StandardQTomographyBasedWeighted*.set_prob_dists_q"
 MIX_EXPS = {          # name -> (type, outcome counts of the tester POVMs)
     "mqst-322": ("qst", [3, 2, 2]), "mqst-243": ("qst", [2, 4, 3]), "mqst-25": ("qst", [2, 5]),
     "mqpt-32": ("qpt", [3, 2]), "mqpt-24": ("qpt", [2, 4]), "mqmpt-23": ("qmpt", [2, 3]),
+    # user-defined schedules: the testers permuted and / or only a subset of them used (":" + POVM order, states in reverse order)
+    "mqst-322:201": ("qst", [3, 2, 2]), "mqst-243:20": ("qst", [2, 4, 3]), "mqpt-32:10": ("qpt", [3, 2]), "mqmpt-23:1": ("qmpt", [2, 3]),
 }
 _MIX = {}
 
@@ -1158,23 +1203,28 @@ def get_mix_exp(name, para):
         from quara.protocol.qtomography.standard.standard_qpt import StandardQpt
         from quara.protocol.qtomography.standard.standard_qmpt import StandardQmpt
         typ, ks = MIX_EXPS[name]
+        order = [int(ch) for ch in name.split(":")[1]] if ":" in name else None
         c_sys = generate_composite_system("qubit", 1)
         std = generate_tester_povms(c_sys, ["x", "y", "z"])
         povms = [std[i % 3] if k == 2 else kpovm(c_sys, k, i) for i, k in enumerate(ks)]
         states = generate_tester_states(c_sys, ["x0", "y0", "z0", "z1"])
         s2 = np.sqrt(2)
+        srev = list(range(len(states)))[::-1]
         if typ == "qst":
-            qt = StandardQst(povms, on_para_eq_constraint=para, schedules="all")
+            sch = "all" if order is None else [[("state", 0), ("povm", j)] for j in order]
+            qt = StandardQst(povms, on_para_eq_constraint=para, schedules=sch)
             obj = State(c_sys, np.array([1, 0, 0, 0]) / s2, on_para_eq_constraint=para)
         elif typ == "qpt":
-            qt = StandardQpt(states, povms, on_para_eq_constraint=para, schedules="all")
+            sch = "all" if order is None else [[("state", i), ("gate", 0), ("povm", j)] for j in order for i in srev]
+            qt = StandardQpt(states, povms, on_para_eq_constraint=para, schedules=sch)
             obj = Gate(c_sys, np.diag([1.0, 0, 0, 0]), on_para_eq_constraint=para)
         else:
-            qt = StandardQmpt(states, povms, num_outcomes=2, on_para_eq_constraint=para, schedules="all")
+            sch = "all" if order is None else [[("state", i), ("mprocess", 0), ("povm", j)] for i in srev for j in order + [0]]
+            qt = StandardQmpt(states, povms, num_outcomes=2, on_para_eq_constraint=para, schedules=sch)
             obj = MProcess(c_sys, [np.diag([0.5, 0, 0, 0])] * 2, on_para_eq_constraint=para)
         A = np.array(qt.calc_matA(), dtype=np.float64); b = np.array(qt.calc_vecB(), dtype=np.float64)
         sizes = [qt.num_outcomes(j) for j in range(qt.num_schedules)]
-        assert sum(sizes) == A.shape[0] and len(set(sizes)) > 1
+        assert sum(sizes) == A.shape[0] and len(set(sizes)) > 1, (name, sizes, A.shape)
         e = {"qt": qt, "A": A, "b": b, "sizes": sizes, "nv": qt.num_variables, "v0": np.array(obj.to_var(), dtype=np.float64)}
         _MIX[key] = e
         return e
@@ -1202,7 +1252,7 @@ def chk_mixed_counts(ctx, case):
     mode = case["mode"]; fam = case["family"]
     Aj = [fl(e["A"][off[j]:off[j + 1]]) for j in range(ns)]; bj = [fl(e["b"][off[j]:off[j + 1]]) for j in range(ns)]
     ctx.count("mixed_counts", key=("mix", case["exp"], case["para"], fam, mode, tuple(case["v"]), tuple(case["q"])), nontrivial=True,
-              label="%s-%s-%s" % (case["exp"], fam, MODES.get(mode, mode)))
+              label="%s-%s-%s" % (case["exp"].replace(":", "-sched"), fam, MODES.get(mode, mode)))
     wq = quiet()
     try:
         if fam == "se":
@@ -1290,7 +1340,7 @@ def sub_mixed_counts(ctx):
     names = sorted(MIX_EXPS)
     cases = []
     for i in range(ctx.n(14, 160)):
-        name = names[i % len(names)] if not ctx.quick else ["mqst-322", "mqst-243", "mqpt-32", "mqmpt-23", "mqst-25"][i % 5]
+        name = names[i % len(names)] if not ctx.quick else ["mqst-322", "mqst-243:20", "mqpt-32:10", "mqmpt-23", "mqst-25", "mqst-322:201", "mqmpt-23:1"][i % 7]
         para = bool((i // len(names)) % 2) if not ctx.quick else bool(i % 2)
         e = get_mix_exp(name, para); sizes = e["sizes"]; ns = len(sizes)
         fam = "se" if i % 3 != 2 else "re"
@@ -1501,6 +1551,72 @@ FNS = {"se_callables": chk_se_callables, "se_qt": chk_se_qt, "re_callables": chk
        "mixed_counts": chk_mixed_counts, "fns": chk_fns, "simple_quadratic": chk_simple_quadratic}
 
 
+# ================================================================== LossMinimizationEstimator.calc_estimate_sequence end to end
+def chk_estimate_sequence(ctx, case):
+    """one loss object and ONE option object for a whole sequence of data sets (what calc_estimate_sequence does): every
+    estimate of the sequence must equal the estimate obtained for that data set alone with fresh objects (the weights of the
+    data dependent modes are those of the CURRENT data set), (generic and fast class are both driven; their estimates are not compared - an iterative optimiser -) and the weights left in the
+    loss object are those the mode denotes for the LAST data set"""
+    from quara.protocol.qtomography.standard.loss_minimization_estimator import LossMinimizationEstimator
+    from quara.minimization_algorithm.projected_gradient_descent_backtracking import (
+        ProjectedGradientDescentBacktracking, ProjectedGradientDescentBacktrackingOption)
+    from quara.loss_function.weighted_probability_based_squared_error import (
+        WeightedProbabilityBasedSquaredError, WeightedProbabilityBasedSquaredErrorOption)
+    from quara.loss_function.standard_qtomography_based_weighted_probability_based_squared_error import (
+        StandardQTomographyBasedWeightedProbabilityBasedSquaredError, StandardQTomographyBasedWeightedProbabilityBasedSquaredErrorOption)
+    m = ctx.get_model()
+    e = get_exp(case["exp"]); qt = e["qt"]; ns, mm, nv = e["ns"], e["m"], e["nv"]
+    mode = case["mode"]
+    seqs = [[(int(d["nd"][j]), np.array(d["q"][j * mm:(j + 1) * mm], dtype=np.float64)) for j in range(ns)] for d in case["data"]]
+    ctx.count("estimate_sequence", key=("seq", case["exp"], mode, tuple(case["data"][0]["q"])), nontrivial=True, label="%s-%s-%d" % (case["exp"].split("-")[0], MODES[mode], len(seqs)))
+    wq = quiet()
+    try:
+        res = {}
+        for fast, cls, ocls in ((False, WeightedProbabilityBasedSquaredError, WeightedProbabilityBasedSquaredErrorOption),
+                                (True, StandardQTomographyBasedWeightedProbabilityBasedSquaredError, StandardQTomographyBasedWeightedProbabilityBasedSquaredErrorOption)):
+            name = cls.__name__
+            loss = cls(nv)
+            r = LossMinimizationEstimator().calc_estimate_sequence(qt, seqs, loss, ocls(MODES[mode]), ProjectedGradientDescentBacktracking(),
+                                                                  ProjectedGradientDescentBacktrackingOption(), is_computation_time_required=False)
+            seq = [fl(x) for x in r.estimated_var_sequence]
+            for i, d in enumerate(seqs):
+                r1 = LossMinimizationEstimator().calc_estimate(qt, d, cls(nv), ocls(MODES[mode]), ProjectedGradientDescentBacktracking(),
+                                                              ProjectedGradientDescentBacktrackingOption(), is_computation_time_required=False)
+                if not vec_close(seq[i], fl(r1.estimated_var), 1e-9):
+                    ctx.violation("estimate_sequence", "LossMinimizationEstimator.calc_estimate_sequence(%s)" % name, "estimate-depends-on-earlier-data-sets",
+                                  "data set %d of the sequence: estimate %s, the same data set alone with fresh objects %s" % (i, seq[i][:4], fl(r1.estimated_var)[:4]), case)
+                    break
+            # weights left in the object = those of the LAST data set
+            last = {"mode": mode, "nd": case["data"][-1]["nd"], "q": case["data"][-1]["q"], "custom": None}
+            spec = spec_weights(m, ns, mm, last)
+            w_left, _ = se_state(loss, fast)
+            if spec[0] == "w" and not same(w_left, [float(x) for x in spec[1]]):
+                ctx.violation("estimate_sequence", SITE_SE_MODE, "weights-after-sequence-not-those-of-last-data-set",
+                              "%s: the weights left after the sequence are not the %s weights of the last data set" % (name, MODES[mode]), case)
+            res[fast] = seq
+    finally:
+        wq.__exit__(None, None, None)
+
+
+def sub_estimate_sequence(ctx):
+    rng = ctx.rng
+    # (projected gradient descent on the ill-conditioned inverse-covariance losses is slow for > 2 outcomes: quick tier uses QST with 2-outcome testers)
+    plans = [("qst-2-T", 2), ("qst-2-F", 4)] + ([] if ctx.quick else [("qst-2-F", 2), ("qst-2-T", 3), ("qst-2-F", 3), ("qst-2-T", 4)] * 2)
+    cases = []
+    for name, mode in plans:
+        e = get_exp(name)
+        data = []
+        for t in range(2 if ctx.quick else rng.choice([2, 3])):
+            st = gen_step(rng, e, mode)
+            data.append({"nd": st["nd"], "q": st["q"]})
+        cases.append({"exp": name, "mode": mode, "data": data})
+    ctx.sample("estimate_sequence", {"exp": cases[0]["exp"], "mode": cases[0]["mode"], "n": len(cases[0]["data"])})
+    ctx.run_cases("estimate_sequence", chk_estimate_sequence, cases)
+
+
+SUBS.append(("estimate_sequence", sub_estimate_sequence)); FNS["estimate_sequence"] = chk_estimate_sequence
+
+
 # ================================================================== explicit arguments vs the object's own configuration
 def chk_config_args(ctx, case):
     """fresh objects of the four classes, constructed with a num_var that is NOT the experiment's (None / too small / too
@@ -1689,7 +1805,7 @@ def run(ctx):
         ok, info = False, info2
         ctx.note("regenerated decision tables (coq/gen/C12_Equiv.v) not discharged: %s" % str(info2)[:400])
         # the tie is broken: widen the differential sweep (thorough-size generators) to find a concrete failing input
-        ctx.n = lambda quick, thorough: max(quick, thorough // 5)
+        ctx.n = lambda quick, thorough: max(quick, thorough // 8)
     if not ok:
         ctx.discharged = min(ctx.discharged, ctx.obligations - 1)
     for name, fn in SUBS:
